@@ -194,6 +194,7 @@ type multiStreamListener struct {
 	ln          StreamListener
 	count       uint32
 	acceptCh    chan acceptResponse
+	doneCh      chan struct{} // closed when the last handle is closed
 	onCloseFunc OnCloseFunc
 }
 
@@ -220,21 +221,27 @@ func (m *multiStreamListener) Acquire() (StreamListener, error) {
 		}
 		m.ln = &TCPListener{ln}
 		m.acceptCh = make(chan acceptResponse)
+		m.doneCh = make(chan struct{})
+		// The accept loop works on this listener and these channels only; the fields are
+		// replaced when the listener is acquired again after its last handle was closed.
+		streamLn, acceptCh, doneCh := m.ln, m.acceptCh, m.doneCh
 		go func() {
 			for {
-				m.mu.Lock()
-				ln := m.ln
-				m.mu.Unlock()
-
-				if ln == nil {
-					return
-				}
-				conn, err := ln.AcceptStream()
+				conn, err := streamLn.AcceptStream()
 				if errors.Is(err, net.ErrClosed) {
-					close(m.acceptCh)
+					close(acceptCh)
 					return
 				}
-				m.acceptCh <- acceptResponse{conn, err}
+				select {
+				case acceptCh <- acceptResponse{conn, err}:
+				case <-doneCh:
+					// The last handle was closed: nobody is left to take this connection.
+					if conn != nil {
+						conn.Close()
+					}
+					close(acceptCh)
+					return
+				}
 			}
 		}()
 	}
@@ -251,6 +258,7 @@ func (m *multiStreamListener) Acquire() (StreamListener, error) {
 			if m.count == 0 {
 				m.ln.Close()
 				m.ln = nil
+				close(m.doneCh)
 				if m.onCloseFunc != nil {
 					onCloseFunc := m.onCloseFunc
 					m.onCloseFunc = nil
